@@ -25,6 +25,12 @@ def fxStep (ds : DualState) (st : FxState) (toks : List String) : Option (FxStat
     match FXRates.tryNew qs base with
     | .ok f => pure ({ st with fxs := st.fxs.insert id f }, "ok")
     | .error _ => pure (st, "err")
+  | ["fxrateq", id, l, r] => do
+    -- a QUOTED pair (or the diagonal): compared bit for bit
+    let f ← st.fxs.get? (← id.toNat?)
+    match f.rate l r with
+    | some v => pure (st, fmtNum v)
+    | none => pure (st, "none")
   | ["fxrate", id, l, r] => do
     let f ← st.fxs.get? (← id.toNat?)
     match f.rate l r with
